@@ -170,6 +170,74 @@ def body_rules(prog, rep, keys, positive=False):
     return hits, sites, crates_reached
 
 
+COW_STR = re.compile(r"^alloc::borrow::Cow<('[A-Za-z_0-9]+, )?str>$")
+
+
+def representation_sites(prog, keys):
+    """(function, where) for every read of the discriminant of a Cow<str> in the given bodies: `match cow
+    { Borrowed.. / Owned.. }`, `matches!`, `if let Cow::Owned(..)`. Deref, `into_owned`, `to_mut`, `==` go
+    through std and are content functions; drop elaboration of a *moved-from* Cow also reads the
+    discriminant, but only after a user-written match on it."""
+    out = []
+    seen = set()
+    for k in keys:
+        b = prog.bodies[k]
+        for bl in b.blocks:
+            if bl["cleanup"]:
+                continue
+            for st in bl["stmts"]:
+                if st["k"] == "assign" and st["rv"]["k"] == "discriminant" and COW_STR.match(st["rv"].get("ty", "")) and k not in seen:
+                    seen.add(k)
+                    out.append((k, common.where(st)))
+    return out
+
+
+def variant_independent(prog, key):
+    """Try to show that a body which inspects a Cow's variant returns the same content either way:
+    interpret it with strings as content terms (Borrowed(x) and Owned(x) carry the same term x), every
+    external call an uninterpreted function of its argument terms, and the variant an oracle. Paths that
+    agree on every other decision must return the same term. Anything the interpreter cannot follow
+    (loops over characters, unmodelled mutation) means "not shown"."""
+    from .. import types as ty_
+    from ..worlds import OracleWorld
+
+    class W(OracleWorld):
+        max_steps = 20000
+
+        def call(self, m, st, callee, args, term):
+            p = callee["path"]
+            if self.prog.is_ws(p):
+                return None
+            if p in m.models:
+                r = m.models[p](m, st, callee, args, term)
+                if r is not None:
+                    return r
+            if callee.get("virtual") or not callee["resolved"]:
+                if callee.get("trait") in ("core::convert::Into", "core::convert::From", "core::convert::AsRef", "core::ops::deref::Deref"):
+                    return None
+            return self.uf_result(m, st, p, callee, args, term)
+
+    f = prog.fns.get(key)
+    if f is None:
+        return False, "no signature"
+    m = ip.Machine(prog, W(prog))
+    st0 = ip.State()
+    try:
+        outs = m.run(m.start(key, ty_.fresh_args(prog, st0, f["inputs"]), st0), max_paths=2000)
+    except ip.AnalysisError as e:
+        return False, "not followed: %s" % str(e)[:120]
+    groups = {}
+    for o in outs:
+        if o.kind == "closed":
+            return False, "loop"
+        rest = tuple((k, v) for k, v in o.state.log if not (isinstance(k, tuple) and k and k[0] == "cow-variant"))
+        groups.setdefault(repr(rest), set()).add((o.kind, repr(o.value)))
+    for g, res in groups.items():
+        if len(res) != 1:
+            return False, "results differ by variant: %s" % sorted(res)[:2]
+    return True, "%d paths" % len(outs)
+
+
 def run(tier):
     rep = Report("C16", tier, __doc__)
     prog = Program()
@@ -217,6 +285,14 @@ def run(tier):
     rep.floor("reachable library bodies", len(reach), 150)
     rep.floor("call sites examined", sites, 500)
     rep.extra["crates_reached"] = sorted(crates_reached)
+    # ---------------- (c') representation-blindness: borrowed / owned / Cow arguments give the same content
+    rsites = representation_sites(prog, reach.keys())
+    n_bad = 0
+    for k, where in rsites:
+        same, why = variant_independent(prog, k)
+        n_bad += 0 if same else 1
+        rep.ob("representation", k, same, "inspects whether a Cow<str> is Borrowed or Owned: the result may then differ between a borrowed slice, a String and a Cow of the same content, and the two branches could not be shown to return the same content (%s)" % why, where, key="representation|%s" % k)
+    rep.ob("representation", "no library body reachable from the public API lets a result depend on the Cow variant of a string (%d bodies, %d inspecting site(s))" % (len(reach), len(rsites)), n_bad == 0, "%d function(s)" % n_bad, sample=True, key="representation|summary")
     # ---------------- (d) API forms
     k = 0
     for prof in ("UsernameCaseMapped", "UsernameCasePreserved", "OpaqueString", "Nickname"):
@@ -240,6 +316,7 @@ def run(tier):
     kinds = {h[1].split(":")[0] for h in phits}
     for want in ("clock", "process environment", "atomics (shared mutable state)", "process control"):
         rep.ob("positive-control", "effects rule fires on `%s`" % want, want in kinds, "rule did not match its positive control (fired: %s)" % sorted(kinds))
+    rep.ob("positive-control", "Cow-variant inspection detected", bool(representation_sites(prog, pos)), "rule did not match `by_representation`")
     rep.ob("positive-control", "unsafe block detected", any(h[1].startswith("unsafe block") for h in phits), "fired: %s" % sorted({h[1][:30] for h in phits}))
     rep.ob("positive-control", "thread-local / static mut detected", any(h[1].startswith("thread-local") for h in phits) and any("static mut" in h[1] for h in phits), "fired: %s" % sorted({h[1][:30] for h in phits}))
     _, sb = static_rules(prog, rep, ("pv_positive",), positive=True)
